@@ -37,6 +37,13 @@ class MaskedLinearOperator(LinearOperator):
 
     @staticmethod
     def _expand(tensor: Float[Tensor, "*batch N C"], mask: Bool[Tensor, "N0"]) -> Float[Tensor, "*batch N0 C"]:
+        if tensor.size(-2) != torch.count_nonzero(mask):
+            # (the masked assignment below would broadcast a single row into every unmasked row)
+            raise RuntimeError(
+                "Size mismatch: tensor with {} rows cannot fill the {} unmasked entries.".format(
+                    tensor.size(-2), int(torch.count_nonzero(mask))
+                )
+            )
         res = torch.zeros(
             *tensor.shape[:-2],
             mask.size(-1),
